@@ -3,6 +3,7 @@ package main
 // Solver portfolio: z3-new (5.1.0) first, then cvc5 and z3 4.8.12 raced on anything not decided.
 
 import (
+	"runtime"
 	"bytes"
 	"context"
 	"fmt"
@@ -44,7 +45,20 @@ var solvers = []Solver{
 	}},
 }
 
+// solverSlots bounds the number of solver processes running at once to the number of cores: the solvers'
+// time limits are wall-clock, so oversubscription turns fast queries into timeouts.
+var solverSlots = make(chan struct{}, runtime.NumCPU())
+
 func runSolver(ctx context.Context, s Solver, file string, timeout int) (string, string, float64) {
+	select {
+	case solverSlots <- struct{}{}:
+		defer func() { <-solverSlots }()
+	case <-ctx.Done():
+		return "cancelled", "", 0
+	}
+	if ctx.Err() != nil {
+		return "cancelled", "", 0
+	}
 	args := s.Args(file, timeout)
 	cctx, cancel := context.WithTimeout(ctx, time.Duration(timeout+2)*time.Second)
 	defer cancel()
@@ -81,54 +95,103 @@ type SolveOpts struct {
 var fileCounter int
 var fileMu sync.Mutex
 
-func Solve(script string, opts SolveOpts) *SolveResult {
-	fileMu.Lock()
-	fileCounter++
-	n := fileCounter
-	fileMu.Unlock()
-	file := filepath.Join(opts.ScratchDir, fmt.Sprintf("q%06d.smt2", n))
-	if err := os.WriteFile(file, []byte(script), 0644); err != nil {
+func Solve(script string, opts SolveOpts) *SolveResult { return SolveAided(script, "", opts) }
+
+// SolveAided: aided is the same query plus hypotheses that are consequences of the others (instances of
+// quantified hypotheses): an answer on either script is an answer for the query.
+func SolveAided(script, aided string, opts SolveOpts) *SolveResult {
+	write := func(txt string) (string, error) {
+		fileMu.Lock()
+		fileCounter++
+		n := fileCounter
+		fileMu.Unlock()
+		file := filepath.Join(opts.ScratchDir, fmt.Sprintf("q%06d.smt2", n))
+		return file, os.WriteFile(file, []byte(txt), 0644)
+	}
+	file, err := write(script)
+	if err != nil {
 		return &SolveResult{Status: "error", Output: err.Error()}
 	}
 	defer os.Remove(file)
+	afile := ""
+	if aided != "" {
+		if afile, err = write(aided); err != nil {
+			return &SolveResult{Status: "error", Output: err.Error()}
+		}
+		defer os.Remove(afile)
+	}
 	res := &SolveResult{Script: script}
 	ctx := context.Background()
-	// stage 1: z3-new with a short budget
+	// stage 1: z3-new with a short budget, on the plain and then on the aided script
 	t1 := opts.Timeout
 	if t1 > 2 {
 		t1 = 2
 	}
-	st, out, el := runSolver(ctx, solvers[0], file, t1)
-	res.Tried = append(res.Tried, fmt.Sprintf("%s:%s:%.2fs", solvers[0].Name, st, el))
-	res.Seconds += el
-	if st == "unsat" || st == "sat" {
-		res.Status, res.Solver, res.Output = st, solvers[0].Name, out
-		if opts.Thorough && st == "unsat" {
-			secondOpinion(ctx, res, file, opts, 0)
+	for _, f := range []string{file, afile} {
+		if f == "" {
+			continue
 		}
-		finishValues(res)
-		return res
+		nm := solvers[0].Name
+		if f == afile {
+			nm += "+inst"
+		}
+		st, out, el := runSolver(ctx, solvers[0], f, t1)
+		res.Tried = append(res.Tried, fmt.Sprintf("%s:%s:%.2fs", nm, st, el))
+		res.Seconds += el
+		if st == "unsat" || st == "sat" {
+			res.Status, res.Solver, res.Output = st, nm, out
+			if opts.Thorough && st == "unsat" {
+				secondOpinion(ctx, res, f, opts, 0)
+			}
+			finishValues(res)
+			return res
+		}
 	}
-	// stage 2: race all three with the full budget
+	// stage 2: race the whole portfolio with the full budget
 	type r struct {
-		i   int
-		st  string
-		out string
-		el  float64
+		name string
+		i    int
+		file string
+		st   string
+		out  string
+		el   float64
+	}
+	type entry struct {
+		i    int
+		file string
+		name string
+	}
+	var entries []entry
+	for _, i := range []int{1, 2, 0} {
+		entries = append(entries, entry{i, file, solvers[i].Name})
+	}
+	if afile != "" {
+		for _, i := range []int{0, 1} {
+			entries = append(entries, entry{i, afile, solvers[i].Name + "+inst"})
+		}
+	}
+	for _, i := range []int{3, 4} {
+		entries = append(entries, entry{i, file, solvers[i].Name})
+	}
+	if afile != "" {
+		entries = append(entries, entry{3, afile, solvers[3].Name + "+inst"})
 	}
 	cctx, cancel := context.WithCancel(ctx)
 	defer cancel()
-	ch := make(chan r, len(solvers))
-	for i := range solvers {
-		go func(i int) {
-			s, o, e := runSolver(cctx, solvers[i], file, opts.Timeout)
-			ch <- r{i, s, o, e}
-		}(i)
+	ch := make(chan r, len(entries))
+	for _, e := range entries {
+		go func(e entry) {
+			s, o, el := runSolver(cctx, solvers[e.i], e.file, opts.Timeout)
+			ch <- r{e.name, e.i, e.file, s, o, el}
+		}(e)
 	}
 	best := r{i: -1, st: "unknown"}
-	for range solvers {
+	for range entries {
 		x := <-ch
-		res.Tried = append(res.Tried, fmt.Sprintf("%s:%s:%.2fs", solvers[x.i].Name, x.st, x.el))
+		if x.st == "cancelled" {
+			continue
+		}
+		res.Tried = append(res.Tried, fmt.Sprintf("%s:%s:%.2fs", x.name, x.st, x.el))
 		if x.st == "unsat" || x.st == "sat" {
 			best = x
 			cancel()
@@ -141,10 +204,10 @@ func Solve(script string, opts SolveOpts) *SolveResult {
 	res.Seconds += best.el
 	res.Status, res.Output = best.st, best.out
 	if best.i >= 0 {
-		res.Solver = solvers[best.i].Name
+		res.Solver = best.name
 	}
 	if opts.Thorough && res.Status == "unsat" {
-		secondOpinion(ctx, res, file, opts, best.i)
+		secondOpinion(ctx, res, best.file, opts, best.i)
 	}
 	finishValues(res)
 	return res
